@@ -93,7 +93,31 @@ fn pick_path<'a>(u: &mut Src, doc: &'a J, max_steps: usize) -> (Vec<Step>, &'a J
 /// A navigation program over `doc`. `commas_ok` is false for yq (multi-result comma
 /// programs are a documented presentation difference).
 fn gen_program(u: &mut Src, doc: &J) -> (String, &'static str) {
-    let (mut steps, target) = pick_path(u, doc, 4);
+    let (mut steps, mut target) = pick_path(u, doc, 4);
+    // one draw in six is a slice program: steer the path to an array
+    let want_slice = u.ratio(1, 6);
+    if want_slice {
+        for _ in 0..6 {
+            if matches!(target, J::Arr(_)) {
+                break;
+            }
+            let (s2, t2) = pick_path(u, doc, 4);
+            steps = s2;
+            target = t2;
+        }
+        if let J::Arr(a) = target {
+            let p = path_text(&steps);
+            let sub = |suffix: &str| if p == "." { format!(".{}", suffix) } else { format!("{}{}", p, suffix) };
+            let len = a.len() as i64;
+            let m = u.range_i64(-2, len + 1);
+            let n = u.range_i64(-2, len + 2);
+            return match u.below(3) {
+                0 => (sub(&format!("[{}:{}]", m, n)), "slice"),
+                1 => (sub(&format!("[{}:]", m)), "slice"),
+                _ => (sub(&format!("[:{}]", n)), "slice"),
+            };
+        }
+    }
     // sometimes miss: a key/index the document does not have
     if u.ratio(1, 10) {
         steps.push(if u.bool() { Step::Key("zz".into()) } else { Step::Idx(u.range(0, 40) as i64) });
@@ -111,7 +135,7 @@ fn gen_program(u: &mut Src, doc: &J) -> (String, &'static str) {
     match u.below(16) {
         0 => (".".to_string(), "identity"),
         1 | 2 => (p.clone(), if steps.is_empty() { "identity" } else { "path" }),
-        3 => (sub("[]"), "iterate"),
+        3 | 6 => (sub("[]"), "iterate"),
         4 => (sub("[-1]"), "negative-index"),
         5 => {
             // slices only where the model says array (object slicing is a documented
@@ -129,8 +153,13 @@ fn gen_program(u: &mut Src, doc: &J) -> (String, &'static str) {
                 (sub("[]?"), "optional")
             }
         }
-        6 => (format!("{}?", if p == "." { ".zz".to_string() } else { format!("{}.zz", p) }), "optional"),
-        7 => (sub("[]?"), "optional"),
+        7 => {
+            if u.bool() {
+                (format!("{}?", if p == "." { ".zz".to_string() } else { format!("{}.zz", p) }), "optional")
+            } else {
+                (sub("[]?"), "optional")
+            }
+        }
         8 => (format!("first({})", sub("[]")), "first"),
         9 => (format!("{} | select(. != null)", p), "select"),
         10 => (format!("{} | select(. != null)", sub("[]")), "select"),
@@ -713,17 +742,17 @@ pub fn run(cx: &mut Ctx) {
             cx.replay_outcome(&name, r);
         }
     }
-    cx.check("jq-routes", RULE, Budget { quick: 500, thorough: 20_000, max_len: 8_000 }, jq_case);
+    cx.check("jq-routes", RULE, Budget { quick: 700, thorough: 20_000, max_len: 8_000 }, jq_case);
     for c in ["program-identity", "program-path", "program-iterate", "program-slice", "program-select", "program-keys_unsorted", "program-first", "ascii-only-batch (-a compared)", "doc-duplicate-keys", "nontrivial"] {
-        cx.require_class("jq-routes", c, 8);
+        cx.require_class("jq-routes", c, 5);
     }
-    cx.check("yq-block-yaml", RULE, Budget { quick: 450, thorough: 15_000, max_len: 2_000 }, yq_yaml_case);
+    cx.check("yq-block-yaml", RULE, Budget { quick: 500, thorough: 15_000, max_len: 2_000 }, yq_yaml_case);
     for c in ["program-path", "program-iterate", "program-select", "multi-document-stream", "no-quoted-scalar (-P compared on YAML output)", "nontrivial"] {
-        cx.require_class("yq-block-yaml", c, 8);
+        cx.require_class("yq-block-yaml", c, 5);
     }
-    cx.check("yq-json-text", RULE, Budget { quick: 450, thorough: 15_000, max_len: 3_000 }, yq_json_case);
+    cx.check("yq-json-text", RULE, Budget { quick: 500, thorough: 15_000, max_len: 3_000 }, yq_json_case);
     for c in ["input-json-as-yaml-flow", "input-p-json", "input-dot-json-file", "program-path", "nontrivial"] {
-        cx.require_class("yq-json-text", c, 8);
+        cx.require_class("yq-json-text", c, 5);
     }
     cli::cleanup();
 }
